@@ -319,6 +319,18 @@ func conflictAtoms() []ConflictAtom {
 		ss[1].addType("X", "", "b: Int")
 		ss[1].Query = append(ss[1].Query, "x1: X")
 	}, true})
+	out = append(out, ConflictAtom{"node-type-identical-in-two-services", func(ss []*SvcSpec) {
+		for si := 0; si < 2; si++ {
+			ss[si].addType("XN", "Node", "a: Int", "b: String")
+			ss[si].Query = append(ss[si].Query, fmt.Sprintf("xn%d: XN", si))
+		}
+	}, true})
+	out = append(out, ConflictAtom{"shared-type-id-in-one-only", func(ss []*SvcSpec) {
+		ss[0].addType("PI2", "", "id: ID!", "name: String")
+		ss[0].Query = append(ss[0].Query, "pi20: PI2")
+		ss[1].addType("PI2", "", "name: String")
+		ss[1].Query = append(ss[1].Query, "pi21: PI2")
+	}, true})
 	out = append(out, ConflictAtom{"node-type-duplicate-field", func(ss []*SvcSpec) { ss[1].Types["N1"] = append(ss[1].Types["N1"], "name: String") }, true})
 	out = append(out, ConflictAtom{"shared-type-partial-overlap", func(ss []*SvcSpec) {
 		ss[0].addType("P", "", "a: Int", "b: Int")
@@ -402,6 +414,10 @@ func specsOf(d WorldDesc) ([]*SvcSpec, error) {
 		ss = baseW0()
 	case "Wmin":
 		ss = baseWmin()
+	case "Wdeep":
+		ss = baseWdeep()
+	case "Wfan":
+		ss = baseWfan()
 	default:
 		return nil, fmt.Errorf("unknown base")
 	}
@@ -494,7 +510,7 @@ func init() {
 	Props["C04"] = c04
 
 	c05 := mk("C05")
-	c05.Rule = "case = (mergeable schema set (base + <=2 (thorough 3) world atoms), one conflict atom out of 40: same root field twice (query, mutation), one name two kinds (all 15 kind pairs), Node in one service only, Node type with duplicated field, " +
+	c05.Rule = "case = (mergeable schema set (base + <=2 (thorough 3) world atoms), one conflict atom out of 42: same root field twice (query, mutation), one name two kinds (all 15 kind pairs), Node in one service only, Node type with duplicated field, " +
 		"shared type/input partial overlap or subset, shared (input) field with different type/nullability/list wrapper/argument name/type/default, union with different members; plus 4 acceptable differences) x all permutations of the service list; " +
 		"oracle: Merge returns an error for a conflict (no panic, no silent success), accept/reject identical across permutations, and on accept canonical facts and Node-field routes identical across permutations; " +
 		"the mergeable sets themselves are also checked for permutation invariance; non-trivial = a conflict atom was applied"
